@@ -6,7 +6,7 @@ On every run the translation is regenerated (both header variants).  If it is te
 main build are theorems about this tree.  If it differs, the proofs are re-checked against the new translation in a scratch copy
 of the development (symbolic links to the compiled files, so nothing under coq/ is touched and runs against different trees can
 proceed in parallel); a failure there is a broken proof obligation of the calling property."""
-import concurrent.futures, os, sys, json, hashlib, subprocess, shutil, difflib, glob
+import concurrent.futures, time, os, sys, json, hashlib, subprocess, shutil, difflib, glob
 from . import common
 
 LEAF_PIDS = ("C08", "C09", "C10", "C12", "C13", "C18", "C20")
@@ -14,10 +14,10 @@ GEN = os.path.join(common.COQ, "Generated", "LeafCode.v")
 # C13 and C20 are about the translated functions themselves; the machine-level properties only rest on the constants (contain(), UNIT_COUNT)
 DEPENDENTS = {"C13": [("Proofs/LeafCodeBits.v", "Proofs/LeafCodeStream.v", "Proofs/LeafCodeBuffer.v"), "Proofs/LeafCodeWide.v", "Proofs/LeafCodeFields.v"],
               "C20": ["Proofs/LeafConsts.v", "Proofs/LeafCodeProofs.v", "Proofs/LeafCodeArrays.v", "Proofs/LeafCodeStatic.v"],
-              "C10": ["Proofs/LeafCodeTaskList.v", "Proofs/LeafCodePlan.v", ("Proofs/LeafCodePlanRemove.v", "Proofs/LeafCodePlanAppend.v"), "Proofs/LeafCodePlanInv.v"],
+              "C10": ["Proofs/LeafCodeTaskList.v", "Proofs/LeafCodePlan.v", ("Proofs/LeafCodePlanRemove.v", "Proofs/LeafCodePlanAppend.v", "Proofs/LeafCodePlanChange.v"), "Proofs/LeafCodePlanInv.v"],
               # "never an index outside an array, never an undefined shift or signed overflow" is what every src_ theorem establishes on the way: the byte-level
               # stream code and the slot allocator are the places where the library computes indices into storage
-              "C18": [("Proofs/LeafCodeStream.v", "Proofs/LeafCodeTaskList.v"), ("Proofs/LeafCodeWide.v", "Proofs/LeafCodePlan.v"), ("Proofs/LeafCodePlanRemove.v", "Proofs/LeafCodePlanAppend.v"), "Proofs/LeafCodePlanInv.v"],
+              "C18": [("Proofs/LeafCodeStream.v", "Proofs/LeafCodeTaskList.v"), ("Proofs/LeafCodeWide.v", "Proofs/LeafCodePlan.v"), ("Proofs/LeafCodePlanRemove.v", "Proofs/LeafCodePlanAppend.v", "Proofs/LeafCodePlanChange.v"), "Proofs/LeafCodePlanInv.v"],
               "C08": ["Proofs/LeafConsts.v"], "C09": ["Proofs/LeafConsts.v"], "C12": ["Proofs/LeafConsts.v"]}
 
 def _generate(variant, out):
@@ -53,16 +53,29 @@ def recheck_generated(gen_rel, text, dependents, what):
             else: os.symlink(src, dst)
     open(os.path.join(d, gen_rel), "w").write(text)
     out = dict(ok=True, detail="", dir=d, output="")
-    def compile_one(f):
-        r = subprocess.run(["timeout", "2700", "coqc", "-Q", ".", "FFSM2", "-w", "-notation-overridden,-deprecated-hint-without-locality,-deprecated-instance-without-locality", f],
-                           cwd=d, capture_output=True, text=True)
-        return f, r
+    def compile_group(g):
+        """the files of g side by side; the first one that fails stops the others -> [(file, returncode, stdout, stderr)] of those that ran to an end"""
+        logs = {f: (open(os.path.join(d, "log.%d.out" % k), "w+"), open(os.path.join(d, "log.%d.err" % k), "w+")) for k, f in enumerate(g)}
+        procs = {f: subprocess.Popen(["timeout", "2700", "coqc", "-Q", ".", "FFSM2", "-w", "-notation-overridden,-deprecated-hint-without-locality,-deprecated-instance-without-locality", f],
+                                     cwd=d, stdout=logs[f][0], stderr=logs[f][1], text=True) for f in g}
+        done = []; failed = False
+        while procs:
+            for f in list(procs):
+                rc = procs[f].poll()
+                if rc is None: continue
+                del procs[f]
+                o, e = logs[f]; o.seek(0); e.seek(0); done.append((f, rc, o.read(), e.read())); o.close(); e.close()
+                if rc != 0: failed = True
+            if failed:
+                for f in list(procs):
+                    procs[f].kill(); procs[f].wait(); logs[f][0].close(); logs[f][1].close(); del procs[f]
+            elif procs: time.sleep(0.2)
+        return done
     for g in [(gen_rel,)] + groups:
-        with concurrent.futures.ThreadPoolExecutor(max_workers=len(g)) as ex: rs = list(ex.map(compile_one, g))
-        for f, r in rs:
-            out["output"] = r.stdout[-20000:]
-            if r.returncode != 0:
-                out = dict(ok=False, detail="%s does not check against %s:\n%s" % (f, what, (r.stdout + r.stderr)[-1800:]), dir=d, output=""); break
+        for f, rc, so, se in compile_group(g):
+            out["output"] = so[-20000:]
+            if rc != 0:
+                out = dict(ok=False, detail="%s does not check against %s:\n%s" % (f, what, (so + se)[-1800:]), dir=d, output=""); break
         if not out["ok"]: break
     json.dump(out, open(res, "w"))
     return out
